@@ -509,3 +509,47 @@ def template_hooks_clause(ctx, res, prop, cid, root_name, floor=1):
                                     'it is' if len(hooks) == 1 else 'they are')))
         c.instance('%s.%s dispatches to %s (redefined below)' % (root.name, nm, sorted(hooks)), m.qualname, True)
     return c
+
+
+def every_return_passes(fn_node, pred):
+    """does every path of fn_node that ends normally (return / end of body) evaluate a simple statement accepted by pred(stmt)?
+    Loops may run zero times; a handler may be entered before anything of the try body ran. Returns (ok, offending node or None)"""
+    bad = []
+
+    def has(s):
+        return any(pred(x) for x in ast.walk(s))
+
+    def go(stmts, states):
+        for s in stmts:
+            if not states:
+                return states
+            if isinstance(s, (ast.FunctionDef, ast.AsyncFunctionDef, ast.ClassDef)):
+                continue
+            if isinstance(s, ast.Return):
+                if s.value is not None and has(s.value):
+                    states = {True}
+                if False in states:
+                    bad.append(s)
+                return set()
+            if isinstance(s, ast.Raise):
+                return set()
+            if isinstance(s, ast.If):
+                pre = {True} if has(s.test) else states
+                states = go(s.body, set(pre)) | go(s.orelse, set(pre))
+            elif isinstance(s, (ast.For, ast.While)):
+                states = states | go(s.body, set(states)) | go(s.orelse, set(states))
+            elif isinstance(s, ast.With):
+                states = go(s.body, {True} if any(has(i.context_expr) for i in s.items) else states)
+            elif isinstance(s, ast.Try):
+                entry = set(states)
+                after = go(s.orelse, go(s.body, set(states)))
+                for h in s.handlers:
+                    after |= go(h.body, set(entry))
+                states = go(s.finalbody, after) if s.finalbody else after
+            elif has(s):
+                states = {True}
+        return states
+    end = go(list(fn_node.body), {False})
+    if False in end:
+        bad.append(fn_node)
+    return (not bad), (bad[0] if bad else None)
